@@ -15,6 +15,7 @@ Checked, not translated (anything else raises Untranslatable; Model_Session.v do
     _read_open, negotiated.received / [not local_as] _send_open .. fsm.change(OPENSENT) / proto.validate_open() /
     fsm.change(OPENCONFIRM) / recv_timer = ReceiveTimer(..) / _send_ka / _read_ka / fsm.change(ESTABLISHED);
   * Peer._send_open/_read_open/_send_ka/_read_ka call proto.new_open/read_open/new_keepalive/read_keepalive;
+    _read_ka waits with `asyncio.wait_for(.., timeout=holdtime or None)` and raises a literal Notify on timeout;
   * Peer._connect: proto.connect(); failure -> `if self.proto: self._close(..)` then raise Interrupted;
     success -> self.proto = proto;
   * Peer._run: try [_establish, _main]; handlers in this order and with these calls:
@@ -25,7 +26,9 @@ Checked, not translated (anything else raises Untranslatable; Model_Session.v do
   * Peer.stop: fsm.change(IDLE); Peer.remove/shutdown: _stop then stop; Peer._stop: `if self.proto: self._close`;
   * Peer.handle_connection: ESTABLISHED -> return connection.notification(6, 7, ..); OPENCONFIRM compares
     router ids; then `if self.proto: self._close(..)`; `self.proto = Protocol(self).accept(connection)`;
-    (the model assumes the establishing coroutine is NOT restarted there: `_abandon_run` must be absent);
+    `self.fsm_runner.clear()`; `self._abandon_run()` (the attempt in progress - a task created by run() as
+    `self._run_task = asyncio.ensure_future(self._run())` - is cancelled, run() swallows exactly that
+    CancelledError and starts over);
   * Peer._main: starts with `if self._teardown: raise Notify(6, 3)`; processes.up before the loop;
     the loop is `while not self._teardown`; ends with `raise Notify(6, self._teardown)`;
   * Protocol.accept/connect report `connected`; read_open/read_keepalive raise Notify(5,1)/(5,2) on another type;
@@ -218,9 +221,13 @@ def check_establish(tree):
     single_call('_send_open', 'await self.proto.new_open()')
     ro = single_call('_read_open', 'self.proto.read_open(')
     single_call('_send_ka', 'await self.proto.new_keepalive(')
-    rk = single_call('_read_ka', 'message = await self.proto.read_keepalive()')
-    if any('wait_for' in u(s) for s in rk.body):
-        fail(PEER, '_read_ka has a timeout now: Model_Session models OPENCONFIRM without a hold timer')
+    rk = single_call('_read_ka', 'message = await asyncio.wait_for(self.proto.read_keepalive(), timeout=holdtime or None)')
+    rk_body = [x for x in significant(rk.body)]
+    if not (len(rk_body) == 3 and u(rk_body[0]) == 'holdtime = int(self.proto.negotiated.holdtime)' and isinstance(rk_body[1], ast.Try)
+            and len(rk_body[1].handlers) == 1 and dotted(rk_body[1].handlers[0].type) == 'asyncio.TimeoutError'
+            and u(rk_body[2]) == 'self.recv_timer.check_ka_timer(message)'):
+        fail(PEER, f'_read_ka changed: {[u(x) for x in rk_body]}')
+    readka = notify_literal(rk_body[1].handlers[0].body[-1], '_read_ka timeout')
     # _read_open: Notify literal on timeout
     tries = [s for s in ro.body if isinstance(s, ast.Try)]
     if len(tries) != 1 or len(tries[0].handlers) != 1 or dotted(tries[0].handlers[0].type) != 'asyncio.TimeoutError':
@@ -228,7 +235,7 @@ def check_establish(tree):
     if 'asyncio.wait_for(self.proto.read_open(' not in u(tries[0].body[0]) or 'timeout=wait' not in u(tries[0].body[0]):
         fail(PEER, '_read_open does not wait_for(read_open, timeout=wait)')
     openwait = notify_literal(tries[0].handlers[0].body[-1], '_read_open timeout')
-    return est_timer, openwait
+    return est_timer, openwait, readka
 
 
 def check_connect(tree):
@@ -248,8 +255,11 @@ def check_connect(tree):
     if not body[1].startswith('[not connected][self.proto]' + close_msg):
         fail(PEER, f'_connect: on failure `if self.proto: self._close(..)` expected, found {body[1]}')
     hs = [dotted(h.type) for h in tries[0].handlers]
-    if hs != ['Stop']:
-        fail(PEER, f'_connect handlers are {hs} (the model assumes the attempt is not cancelled by handle_connection)')
+    if hs != ['Stop', 'asyncio.CancelledError']:
+        fail(PEER, f'_connect handlers are {hs}')
+    ch = tries[0].handlers[1]
+    if [u(x) for x in significant(ch.body)] != ['if proto.connection:\n    proto.connection.close()', 'raise']:
+        fail(PEER, f'_connect: the CancelledError handler does something else than closing the half-open socket and re-raising')
 
 
 def handler_sig(h):
@@ -355,9 +365,21 @@ def check_close_reset_stop(tree):
 def check_handle_connection(tree):
     f = find_function(tree, ['Peer', 'handle_connection'])
     body = significant(f.body)
-    if len(body) != 7:
+    if len(body) != 8:
         fail(PEER, f'handle_connection has {len(body)} significant statements: {[u(s)[:60] for s in body]}')
-    est, oc, acc, assign, clear, delay, ret = body
+    est, oc, acc, assign, clear, abandon, delay, ret = body
+    if u(abandon) != 'self._abandon_run()':
+        fail(PEER, f'handle_connection does not abandon the attempt in progress after accepting: {u(abandon)}')
+    ab = find_function(tree, ['Peer', '_abandon_run'])
+    if [u(x) for x in significant(ab.body)] != ['task = self._run_task', 'if task is not None and (not task.done()):\n    self._run_abandoned = True\n    task.cancel()']:
+        fail(PEER, f'_abandon_run changed: {[u(x) for x in significant(ab.body)]}')
+    rn = find_function(tree, ['Peer', 'run'])
+    src = u(rn)
+    for needle in ('self._run_abandoned = False', 'self._run_task = asyncio.ensure_future(self._run())', 'await self._run_task',
+                   'except asyncio.CancelledError:', 'if not self._run_abandoned or (cancelling is not None and cancelling()):\n                    raise',
+                   'self._run_task = None', 'if not self._restart:\n                break'):
+        if needle not in src:
+            fail(PEER, f'run() lost `{needle}`')
     if not (isinstance(est, ast.If) and u(est.test) == 'self.fsm == FSM.ESTABLISHED'
             and u(significant(est.body)[-1]).startswith('return connection.notification(6, 7,')):
         fail(PEER, 'handle_connection: ESTABLISHED is not refused with notification(6, 7)')
@@ -436,7 +458,7 @@ def check_protocol(tree):
 def generate(repo: str) -> str:
     codes, table = fsm_table(parse(repo, FSM))
     peer = parse(repo, PEER)
-    est_timer, openwait = check_establish(peer)
+    est_timer, openwait, readka = check_establish(peer)
     check_connect(peer)
     check_run(peer)
     check_close_reset_stop(peer)
@@ -463,6 +485,7 @@ def generate(repo: str) -> str:
 
     pair('openwait_notify', openwait)
     pair('establish_timer_notify', est_timer)
+    pair('read_ka_timeout_notify', readka)
     pair('main_teardown_notify', early)
     pair('process_up_notify', up_notify)
     pair('read_open_other_notify', ro)
